@@ -385,11 +385,11 @@ func (r *RectClip64) executeInternalPath64(path Path64) {
 	var ok bool
 	if loc, ok = getLocation(r.rect, path[0]); !ok {
 		prev, ok2 := getLocation(r.rect, path[i])
-		for i <= highI && !ok2 {
+		for !ok2 && i < highI {
 			i++
 			prev, ok2 = getLocation(r.rect, path[i])
 		}
-		if i > highI {
+		if !ok2 {
 			for _, pt := range path {
 				r.add(pt, false)
 			}
